@@ -70,6 +70,8 @@ def judge(h, parsed, rc, timed_out, out):
         return "inconclusive", ["timeout after %ss" % h["timeout_s"]], failed, cov
     if re.search(r"Out of memory|CBMC failed with status|std::bad_alloc", out):
         return "inconclusive", ["CBMC ran out of memory or crashed (never a pass)"], failed, cov
+    if any(c["status"] == "ERROR" for c in checks):
+        return "inconclusive", ["CBMC reported ERROR statuses (solver out of memory or failed): never a pass"], failed, cov
     if parsed["verification"] is None:
         tail = out[-600:].replace("\n", " | ")
         return "inconclusive", ["no verdict from Kani/CBMC (rc=%s): %s" % (rc, tail)], failed, cov
@@ -79,7 +81,12 @@ def judge(h, parsed, rc, timed_out, out):
         return "inconclusive", ["unwinding assertion failed: bound too small (%s)" % unw[0]["desc"]], failed, cov
     unsupported = [c for c in failed if "unsupported_construct" in c["name"] or "is not currently supported by Kani" in c["desc"]]
     # covers
+    tags = set(h.get("tags", []))
     for c in covers:
+        m = re.match(r"\[([\w-]+)\]", c["desc"])
+        if m and not (set(m.group(1).split("-")) <= tags):
+            # witness of a branch this instantiation cannot take (e.g. chunk switch with budget 0): not required
+            continue
         want_unsat = c["desc"].startswith("UNSAT:")
         if want_unsat:
             if c["status"] in ("UNSATISFIABLE", "UNREACHABLE"):
@@ -157,6 +164,50 @@ def judge(h, parsed, rc, timed_out, out):
     return "pass", reasons, [], cov
 
 
+_TREE_HASH = None
+
+
+def tree_hash():
+    """Content hash of everything a harness verdict depends on: /repo (sources, manifests), the harness crates,
+    the shared stubs and the tool versions. A verdict is reused only for byte-identical inputs."""
+    global _TREE_HASH
+    if _TREE_HASH is not None:
+        return _TREE_HASH
+    import hashlib
+
+    hsh = hashlib.sha256()
+    roots = ["/repo/src", "/repo/Cargo.toml", "/repo/Cargo.lock", "/repo/crates", os.path.join(VERIF, "lib", "kani_stubs.rs")]
+    for c in ("kani-pure", "kani-slice", "kani-arena"):
+        roots.append(os.path.join(VERIF, c, "src"))
+        roots.append(os.path.join(VERIF, c, "Cargo.toml"))
+    files = []
+    for r in roots:
+        if os.path.isfile(r):
+            files.append(r)
+        elif os.path.isdir(r):
+            for d, dn, fn in os.walk(r):
+                dn[:] = [x for x in dn if x not in ("target", ".git")]
+                for f in fn:
+                    files.append(os.path.join(d, f))
+    for f in sorted(files):
+        hsh.update(f.encode() + b"\0")
+        try:
+            hsh.update(open(f, "rb").read())
+        except OSError:
+            pass
+        hsh.update(b"\0")
+    hsh.update(b"kani-0.68.0/cbmc-6.11.0")
+    _TREE_HASH = hsh.hexdigest()
+    return _TREE_HASH
+
+
+def cache_path(h):
+    import hashlib
+
+    key = hashlib.sha256((tree_hash() + "|" + h["crate"] + "|" + h["path"] + "|" + json.dumps([h.get("kind"), h.get("expect_fail"), h.get("stubbing"), h.get("cbmc_args"), h.get("timeout_s"), h.get("mem_gb")])).encode()).hexdigest()
+    return os.path.join(CACHE, "results", key + ".json")
+
+
 def kani_cmd(h, target_dir, extra=()):
     cmd = ["cargo", "kani", "--target-dir", target_dir, "--harness", h["path"], "--exact"]
     z = []
@@ -172,8 +223,28 @@ def kani_cmd(h, target_dir, extra=()):
     return cmd
 
 
-def run_harness(h, target_dir, log_path=None, extra=()):
-    """Run cargo kani for harness h (dict). Returns result dict."""
+def run_harness(h, target_dir, log_path=None, extra=(), use_cache=True):
+    """Run cargo kani for harness h (dict). Returns result dict.
+    A harness shared by several properties is solved once per source tree: the verdict is stored under a
+    content hash of all inputs (tree_hash) and reused only when every input is byte-identical."""
+    cp = cache_path(h)
+    if use_cache and os.environ.get("VERIF_NO_CACHE") != "1" and os.path.exists(cp):
+        try:
+            r = json.load(open(cp))
+            if r.get("verdict") in ("pass", "violation"):
+                r["reused"] = True
+                return r
+        except Exception:
+            pass
+    r = _run_harness(h, target_dir, log_path, extra)
+    if r["verdict"] in ("pass", "violation") and not extra:
+        os.makedirs(os.path.dirname(cp), exist_ok=True)
+        with open(cp, "w") as f:
+            json.dump(r, f)
+    return r
+
+
+def _run_harness(h, target_dir, log_path=None, extra=()):
     crate_dir = os.path.join(VERIF, h["crate"])
     cmd = kani_cmd(h, target_dir, extra)
     mem_kb = int(h.get("mem_gb", 4) * 1.6 * 1024 * 1024) + 4 * 1024 * 1024
